@@ -331,6 +331,14 @@ func genC11(seed uint64, tier string) *Scenario {
 		genFaults(r, s, "reset", "cut_after", "half_close", "blackhole", "stall")
 		for i := range s.Faults {
 			s.Faults[i].Conn = core.Pick(r, 0, 0, 1)
+			// A connection whose client->server half alone is closed keeps the
+			// transport READY while every NewStream on it fails at once: grpc-go
+			// then retries transparently in a tight loop until the reader fails,
+			// which costs minutes of CPU per run here (see the report). Close
+			// both halves instead.
+			if s.Faults[i].Kind == "half_close" && s.Faults[i].Dir == "c2s" {
+				s.Faults[i].Dir = "both"
+			}
 		}
 		if r.Chance(1, 6) {
 			s.Faults = append(s.Faults, simnetFault("dial_fail", r.Intn(3)))
